@@ -6,7 +6,6 @@ use crate::ensure;
 use crate::fe::*;
 use crate::gen::{payload, stream};
 use crate::hexu::Case;
-use crate::mon::check_tiling;
 use crate::props::c17::{items_from_text, items_to_text};
 use crate::refm::transport::{ref_encode, START};
 
@@ -237,7 +236,7 @@ impl PropCase for Faults {
                     }
                 }
                 let end = if pending_at_end > 0 { Some(pending_at_end) } else { None };
-                if let Err(e) = check_tiling(&seg_bytes, &lg, end) {
+                if let Err(e) = crate::mon::check_tiling_opt(&seg_bytes, &lg, end, false) {
                     return Err(Fail::new(
                         "error-count-exact",
                         "the count attached to the error / end of input equals the bytes not yet reported",
